@@ -10,7 +10,7 @@ from finam.interfaces import ITimeComponent
 
 from . import harness, model_sched
 from .harness import H, T0, hrs
-from .record import REC, current_update, install
+from .record import REC, RefusalLog, current_update, install
 
 
 class Report:
@@ -43,6 +43,7 @@ def run_spec(spec, *, connect_only=False, memory=None, location="spill", check_m
     install()
     REC.reset()
     rep = Report()
+    rep.refusals = RefusalLog()
     b = harness.build(spec, memory=memory, location=location)
     rep.built = b
     comps = list(b.comps.values())
@@ -114,7 +115,7 @@ def run_spec(spec, *, connect_only=False, memory=None, location="spill", check_m
         cu = current_update()
         if cu is None or inp not in cu.inputs.values():
             return
-        rep.pull_failures.append(dict(comp=cu.name, input=inp.name, t=hrs(time), exc=type(exc).__name__, msg=str(exc)[:200]))
+        rep.pull_failures.append(dict(comp=cu.name, input=inp.name, t=hrs(time), exc=type(exc).__name__, msg=str(exc)[:200], where=rep.refusals.last()))
 
     def on_ada_finalize(ada):
         rep.ada_finalize[id(ada)] = rep.ada_finalize.get(id(ada), 0) + 1
